@@ -58,10 +58,12 @@ def render(program, engine_line=True):
   out = []
   if engine_line:
     out.append('@Engine("sqlite");')
-  if program.get('attach'):
+  if program.get('attach') and not program.get('attach_after_noise'):
     out.append('@AttachDatabase("logica_home", "%s");' % program['attach'])
   for n in program.get('noise', []):
     out.append(n)
+  if program.get('attach') and program.get('attach_after_noise'):
+    out.append('@AttachDatabase("logica_home", "%s");' % program['attach'])
   for name in program.get('ground', []):
     t = (program.get('ground_table') or {}).get(name)
     if t:
